@@ -64,6 +64,7 @@ static void* arenaAlloc(size_t n) {
   setShadow(base, 16 + sizeof(Hdr), SH_BAD);
   setShadow(u, n ? n : 1, 8);
   live_bytes += n; live_blocks++;
+  traceNote("alloc", (int64_t)h->serial, (int64_t)n, (int64_t)(u - ARENA));
   return u;
 }
 
@@ -143,6 +144,7 @@ using namespace sim;
 
 static void* xalloc(size_t n) {
   if (useArena()) return arenaAlloc(n);
+  if (inRun()) traceNote("hostalloc", (int64_t)n, (int64_t)g_host_depth_export, inTask());
   void* p = malloc(n ? n : 1); if (!p) abort(); return p;
 }
 static void xfree(void* p) {
